@@ -1888,7 +1888,7 @@ def gen_call_program(rng, variant):
         if x in LIST_N:
             forms += ["comp", "plain+append"]
         if variant == "fn":
-            forms = ["aug", "append"] if x not in LIST_N else ["append"]
+            forms = ["aug"] if x not in LIST_N else ["append"]
         f = rng.choice(forms)
         lit = rng.choice(LIST_LITS) if x in LIST_N else repr(rng.choice(STRS) + rng.choice(["", "k", "kk"])) if x in STR_N else str(rng.randint(10, 31))
         if f == "append":
@@ -2005,6 +2005,41 @@ CALL_WITNESSES = {
 }
 
 
+def shrink_calls(p, dr, ar, loops, rounds=6):
+    """delete top-level statements (module constants, re-bindings, folds, calls) and statements of function bodies while
+    the firmware still differs from CPython on the same inputs; deleting statements cannot leave the guard (it consists
+    of single-statement side conditions), a candidate Python does not define is dropped"""
+    best = None
+
+    def cands(q):
+        out = []
+        for i, st in enumerate(q):
+            if st[0] == "def":
+                if len(st[3]) > 1:
+                    out += [q[:i] + [st[:3] + (st[3][:j] + st[3][j + 1:],) + st[4:]] + q[i + 1:] for j in range(len(st[3]))]
+            elif st[0] in ("main", "if", "for", "while"):
+                blk = st[1] if st[0] in ("main", "if", "while") else st[2]
+                if len(blk) > 1:
+                    for j in range(len(blk)):
+                        nb = blk[:j] + blk[j + 1:]
+                        out.append(q[:i] + [(st[0], nb) + tuple(st[2:]) if st[0] != "for" else (st[0], st[1], nb) + tuple(st[3:])] + q[i + 1:])
+            else:
+                out.append(q[:i] + q[i + 1:])
+        return out[:48]
+
+    for _ in range(rounds):
+        cs = cands(p)
+        if not cs:
+            break
+        real, scripts, _ = run_real(cs, [dr] * len(cs), [ar] * len(cs), batch=1, loops=[loops] * len(cs))
+        keep = [(c, sc, r) for c, sc, r in zip(cs, scripts, real) if r["status"] == "ran" and r["fw"] != r["py"]["obs"]]
+        if not keep:
+            break
+        p, sc, r = min(keep, key=lambda k: len(k[1]))
+        best = (sc, r)
+    return best
+
+
 def layer_calls(ctx, stats):
     """functions that write module-level names, every re-binding statement form, call, fold"""
     rng = ctx.rng
@@ -2080,7 +2115,12 @@ def layer_calls(ctx, stats):
             elif len(samples) < 2 and len(body) < 500:
                 samples.append(body)
     failing.sort(key=lambda f: f[0])
-    for _, sc, r, v, idx in failing:
+    for n_f, (_, sc, r, v, idx) in enumerate(failing):
+        if n_f == 0:
+            small = shrink_calls(progs[idx], drs[idx], ars[idx], loops[idx])
+            if small is not None:
+                sc, r = small
+                stats["calls:failing program shrunk"] += 1
         ctx.fail("firmware observations differ from CPython's after a call of a function that writes a module-level name: a value the "
                  "transpiler baked in for that name is stale (calling sequence: " + v + ")",
                  {"script": sc, "digital_read(4)": drs[idx], "analog_read(14)": ars[idx], "main_loop_passes": loops[idx]},
